@@ -43,7 +43,7 @@ RECURSIVE DeepVal(_)
 DeepVal(n) == IF n = 0 THEN VS(<<"x">>) ELSE VM((<<"a">> :> DeepVal(n - 1)) @@ (<<"b">> :> VS(<<"B">>)) @@ (<<"c">> :> VM((<<"p">> :> VS(<<"1">>)) @@ (<<"q">> :> VS(<<"2">>)) @@ (<<"r">> :> VS(<<"3">>)))))
 \* numbers and booleans as element content and as text beside attributes (what a cast decode or a JSON decode leaves in a Map)
 cKeysNum == {<<"-", "a">>, <<"b">>, TKey}
-cValsNum == {VF(<<"1", "2", ".", "5">>), VB(<<"t", "r", "u", "e">>), VS(<<"x">>), VF(<<"-", "0">>)}
+cValsNum == {VF(<<"1", "2", ".", "5">>), VB(<<"t", "r", "u", "e">>), VS(<<"x">>), VF(<<"-", "0">>), VL(<<>>)}      \* (... and an empty list: an empty element in every variant)
 cKeysDeep == {<<"b">>, <<"d">>}
 cValsDeep == {DeepVal(10), DeepVal(9), VS(<<"x">>)}
 cKeys == {<<"-", "a">>, <<"-", "a", "-", "b">>, <<"-", "d">>, <<"b">>, <<"c">>, <<"b", "b">>, TKey}     \* (with the text key: mixed content; -a is a proper prefix of -a-b and '-' sorts before '=')
